@@ -10,7 +10,8 @@ import (
 
 //verif:harness VerifC18_Overlay quick.maxpaths=200000 thorough.maxpaths=2000000 timeout=3000
 
-var zzC18Paths = []string{"f", "d/x", "d/y", "e/z"}
+// "d-1/x" and "d/x": directory order (d, d-1) and string order (d-1/x, d/x) differ
+var zzC18Paths = []string{"f", "d/x", "d-1/x", "d/y", "e/z"}
 
 // per layer and path: 0 absent, 1 file, 2 directory-only (for d/x: directory d/x with a child)
 func zzC18Layer(id int, npaths int) (*zzFS, map[string]int) {
@@ -157,7 +158,7 @@ func VerifC18_Overlay() {
 	}
 
 	// glob
-	for _, pat := range []string{"*", "d/*"} {
+	for _, pat := range []string{"*", "d/*", "*/x", "*/*"} {
 		got, err := o.Glob(pat)
 		zzAssert(err == nil, "C18.glob.no-error")
 		set := map[string]bool{}
